@@ -60,14 +60,17 @@ pub fn scenarios(thorough: bool) -> Vec<Scenario> {
 
 /// A custom pool whose liquidity is entirely held by the wallet in two coins, next to liquidity tokens of a built-in pool; from there
 /// every block of up to three withdrawal requests (each in two hash variants) is explored.
-fn custom_pool_withdrawals(run: &Run, thorough: bool) {
+pub fn custom_pool_withdrawals(run: &Run, thorough: bool) {
     let (_w, rootn) = root(NetID::Custom02, 0, true);
     let scratch = Run::new("scratch", "quick");
     let mut cfg = cfg_liquidity();
     cfg.swaps = false;
     cfg.max_txs_per_block = 3;
-    let prefix = ["open", "mint(", "seal(None)", "open", "deposit[MEL/C", "deposit-small[MEL/C", "deposit[MEL/SYM:canonical]", "seal(None)", "open", "deposit-small[MEL/C", "seal(None)"];
-    let start = match advance_by_labels(&scratch, rootn, &cfg, &prefix) {
+    // (the swap makes the reserves uneven, so that pro-rata shares have fractional parts)
+    let prefix = ["open", "mint(", "seal(None)", "open", "deposit[MEL/C", "deposit-small[MEL/C", "deposit[MEL/SYM:canonical]", "seal(None)", "open", "deposit-small[MEL/C", "seal(None)", "open", "swap[MEL/C", "seal(None)"];
+    let mut prefix_cfg = cfg.clone();
+    prefix_cfg.swaps = true;
+    let start = match advance_by_labels(&scratch, rootn, &prefix_cfg, &prefix) {
         Some(n) => n,
         None => {
             run.outcome("custom-pool-prefix-unavailable");
